@@ -715,7 +715,7 @@ func (r *run) feed(n *Node, b *block.Block) {
 		}
 	}
 	var err error
-	if r.tape.Chance(1, 6) {
+	if r.tape.Chance(1, 4) {
 		// this node's process-wide caches are cold (all simulated nodes share one process: the cache of decoded public
 		// keys is the only process-global mutable state of a node, and it must be transparent)
 		keys.VerifPurgeKeyCache()
